@@ -1405,6 +1405,8 @@ class AbsInt:
                     log_event('store', base.owner, key, v)
             elif isinstance(base, dict) and _hashable_const(key):
                 base[key] = v
+            elif isinstance(base, (tuple, bytes, str)) or (isinstance(base, AList) and base.kind in ('tuple', 'bytes', 'frozenset')):
+                raise AbsRaise('TypeError', t, implicit=True, msg='item assignment on an immutable sequence')
             elif isinstance(base, AList) and isinstance(key, int) and not base.has_var():
                 try:
                     base.items[key] = v
